@@ -76,6 +76,31 @@ class TypeViolation(Exception):
     pass
 
 
+class SideViolation(TypeViolation):
+    """a concrete side condition of the property failed (object identity of memoized results, idempotence...)"""
+
+
+def relational_oracle(reference_builder):
+    """oracle = the value of ANOTHER run of the real code (e.g. immediate eager evaluation) over the same symbols"""
+    cache = {}
+
+    def oracle(prog, env, leaves):
+        key = id(leaves)
+        if key not in cache:
+            cache.clear()
+            try:
+                ref = reference_builder(prog, leaves)
+                real_env = {k: v for k, v in env.items() if isinstance(v, np.ndarray)}
+                cache[key] = bind_reals(ref, real_env)
+            except (Unsupported, engine.Abort):
+                raise
+            except Exception as e:  # noqa
+                raise Declined("reference run declined: %s" % type(e).__name__)
+        pt = {k: v for k, v in env.items() if not isinstance(v, np.ndarray)}
+        return result_cells(cache[key], pt)
+    return oracle
+
+
 def funsor_inputs(f):
     out = OrderedDict()
     for k, d in f.inputs.items():
@@ -203,6 +228,8 @@ def run_concrete(prog, builder, leaves, real_env, pred_inputs, pred_output, orac
             result = builder(prog, leaves)
     except (Unsupported, engine.Abort):
         raise
+    except SideViolation:
+        raise
     except Exception as e:  # noqa
         raise Declined("%s: %s" % (type(e).__name__, str(e)[:200]))
     if check_types:
@@ -222,6 +249,8 @@ def run_concrete(prog, builder, leaves, real_env, pred_inputs, pred_output, orac
             exp = (oracle_fn or denote)(prog, env, leaves)
         except (OracleUndefined, ZeroDivisionError, ValueError, OverflowError):
             continue
+        except Declined:
+            raise
         if got.shape != exp.shape:
             raise TypeViolation("value shape %s vs oracle %s" % (got.shape, exp.shape))
         for i in np.ndindex(*got.shape):
@@ -264,7 +293,7 @@ def check_prog(prog, builder, seed=0, twin=False, oracle_fn=None, label="", extr
         out.update(status="declined", detail=str(e))
         return out
     except TypeViolation as e:
-        out.update(status="violation", kind="type", detail=str(e),
+        out.update(status="violation", kind="side" if isinstance(e, SideViolation) else "type", detail=str(e),
                    replay=dict(prog=prog, leaves={k: v.tolist() for k, v in cleaves.items()},
                                real_env={k: v.tolist() for k, v in cenv.items()}))
         return out
@@ -322,6 +351,9 @@ def check_prog(prog, builder, seed=0, twin=False, oracle_fn=None, label="", extr
                     exp = (oracle_fn or denote)(prog, e2, leaves)
                 except OracleUndefined:
                     continue
+                except Declined as e:
+                    out.update(status="declined", detail=str(e)[:200])
+                    return out
                 if got.shape != exp.shape:
                     out.update(status="violation", kind="type", detail="value shape %s vs oracle %s" % (got.shape, exp.shape))
                     return out
